@@ -18,7 +18,9 @@ META = {
             "checker and the real compiler's output, with python big integers, math/big, go/constant and go/types as independent references.",
     "note": "Trusted: Lean kernel; Base/GoInt.lean as the specification of Go's run-time integer operators (validated here against the real "
             "Wa run time and `go run`); the hand-written model's tie to value.go / expr.go is the differential correspondence run, not a proof. "
-            "Modelled-not-verified: float and complex constants (explored against go/constant only, no theorem); the path from the checker's "
+            "Modelled-not-verified: float and complex constants have NO Lean theorem — float32/float64 typed constant expressions are covered by "
+            "correspondence only (stage E: exact-rational oracle with rounding to the type after every typed step, go/types, and fold vs run time vs go run "
+            "on bit patterns); complex constants only explored against go/constant; the path from the checker's "
             "constant value to the emitted instruction (ssa.Const -> getValue -> wir const / data segment) is covered by execution of generated "
             "programs only; string/bool constants are out of scope.",
     "technique": "Lean 4 proof over hand-written model + differential correspondence (constant package, type checker, compiled programs) "
@@ -602,6 +604,204 @@ def gen_float_ops(ctx):
     return ops
 
 
+
+# ------------------------------------------------------------------ stage E: typed FLOAT constant expressions (no Lean theorem)
+from fractions import Fraction
+import struct
+
+FFMT = {"float32": (24, -149, 128), "float64": (53, -1074, 1024)}     # precision, exponent of the smallest ulp, overflow threshold 2^emax
+FOPS = {"add": "+", "sub": "-", "mul": "*", "quo": "/"}
+FINTS = ["int32", "int64", "uint8", "uint32", "uint64"]
+F32LITS = ["0.1", "0.2", "0.3", "0.7", "1", "2", "3", "7", "0.5", "1.5", "16777215", "16777216", "16777217", "16777219", "33554434", "8388608.5",
+           "1e-45", "1.4e-45", "2.1e-45", "1e-40", "1.1754944e-38", "1.1754942e-38", "1e-30", "1e-50", "3.4028235e38", "3.4028234e38", "1e38", "2e38",
+           "1e31", "1.1e31", "1e20", "123456789", "0.333333333333", "1e39", "4294967296", "9223372036854775807", "255", "256", "2.5", "2147483648", "2147483520"]
+F64LITS = ["0.1", "0.2", "0.3", "0.7", "1", "2", "3", "7", "0.5", "1.5", "9007199254740992", "9007199254740993", "9007199254740995", "1e16", "1e300", "1e-300",
+           "4.9e-324", "1e-320", "2.2250738585072014e-308", "1.7976931348623157e308", "1e308", "1e292", "1.0e-400", "1e309", "123456789.123456789",
+           "16777217", "3.4028235e38", "3.4028236e38", "1e-45", "18446744073709551615", "9223372036854775807", "9223372036854775808", "255.5", "256", "2147483647"]
+
+
+def fround(fr, kind):
+    """round an exact rational to the nearest value of the IEEE format (ties to even); None = overflows"""
+    p, emin, emax = FFMT[kind]
+    if fr == 0:
+        return Fraction(0)
+    sg = -1 if fr < 0 else 1
+    a = abs(fr)
+    e = a.numerator.bit_length() - a.denominator.bit_length()
+    while Fraction(2) ** e > a:
+        e -= 1
+    while Fraction(2) ** (e + 1) <= a:
+        e += 1
+    ue = max(e - (p - 1), emin)
+    q = a / Fraction(2) ** ue
+    n = q.numerator // q.denominator
+    rem = q - n
+    if rem > Fraction(1, 2) or (rem == Fraction(1, 2) and n % 2 == 1):
+        n += 1
+    r = n * Fraction(2) ** ue
+    if r >= Fraction(2) ** emax:
+        return None
+    return sg * r
+
+
+def fbits(fr, kind):
+    if kind == "float32":
+        return struct.unpack(">I", struct.pack(">f", float(fr)))[0]
+    return struct.unpack(">Q", struct.pack(">d", float(fr)))[0]
+
+
+def fexact_op(op, a, b):
+    if op == "add":
+        return a + b
+    if op == "sub":
+        return a - b
+    if op == "mul":
+        return a * b
+    return None if b == 0 else a / b
+
+
+def flit(v):
+    """float spelling of a literal (so that untyped operands are untyped FLOAT constants)"""
+    t = v.lstrip("-")
+    if not any(c in t for c in ".e"):
+        t += ".0"
+    return "(-%s)" % t if v.startswith("-") else t
+
+
+class FDecl:
+    """a generated float constant declaration: text (same for Wa and Go), oracle verdict, run-time twin"""
+    __slots__ = ("shape", "kind", "text", "expect", "fn", "call", "rkind", "key")
+
+    def __init__(self, shape, kind, text, expect, fn=None, call=None, rkind=None):
+        self.shape, self.kind, self.text, self.expect, self.fn, self.call, self.rkind = shape, kind, text, expect, fn, call, rkind
+        self.key = "%s:%s" % (shape, kind)
+
+
+def gen_float_decls(ctx):
+    rng = ctx.rng
+    quick = ctx.tier == "quick"
+    out = []
+
+    def sgn(v):
+        return "-" + v if rng.random() < 0.2 else v
+    for kind, lits in (("float32", F32LITS), ("float64", F64LITS)):
+        # typed chains ((K(a) op K(b)) op K(c)) [op K(d)]: rounded to K after every step
+        corner = [(["add", "add"], ["16777216", "1", "1"]), (["add", "sub"], ["0.1", "0.2", "0.3"]), (["mul", "quo"], ["0.1", "3", "3"]),
+                  (["add", "add"], ["9007199254740992", "1", "1"]), (["add", "sub"], ["3.4028235e38", "1e31", "1e31"]),
+                  (["add", "sub"], ["3.4028235e38", "1.1e31", "1.1e31"]), (["mul", "mul"], ["1e-30", "1e-30", "1e30"]),
+                  (["quo", "mul"], ["1", "3", "3"]), (["add", "add", "add"], ["16777216", "1", "1", "1"]), (["quo", "add"], ["1", "1e-50", "1"]),
+                  (["mul", "quo"], ["1e38", "10", "10"]), (["mul", "quo"], ["1e300", "1e10", "1e10"]), (["sub", "mul"], ["1.5", "1.4e-45", "0.5"]),
+                  (["add", "add"], ["0.1", "0.2", "0.3"]), (["mul", "add"], ["1.1754944e-38", "0.5", "1e-45"]), (["mul", "mul"], ["4.9e-324", "0.5", "2"])]
+        n = (70 if quick else 900)
+        seqs = [c for c in corner]
+        while len(seqs) < len(corner) + n:
+            k = rng.choice([2, 2, 2, 3])
+            seqs.append(([rng.choice(list(FOPS)) for _ in range(k)], [sgn(rng.choice(lits)) for _ in range(k + 1)]))
+        for ops, vals in seqs:
+            acc, ok = None, True
+            for i, v in enumerate(vals):
+                x = fround(Fraction(v), kind)
+                if x is None:
+                    ok = False
+                    break
+                if i == 0:
+                    acc = x
+                else:
+                    r = fexact_op(ops[i - 1], acc, x)
+                    r = None if r is None else fround(r, kind)
+                    if r is None:
+                        ok = False
+                        break
+                    acc = r
+            e = "%s(%s)" % (kind, vals[0])
+            body = "a0"
+            for i, op in enumerate(ops):
+                e = "(%s %s %s(%s))" % (e, FOPS[op], kind, vals[i + 1])
+                body = "(%s %s a%d)" % (body, FOPS[op], i + 1)
+            nm = "fc_%s_%s" % (kind, "_".join(ops))
+            fn = "func %s(%s %s) %s { return %s }" % (nm, ", ".join("a%d" % i for i in range(len(vals))), kind, kind, body)
+            out.append(FDecl("fchain%d" % len(ops), kind, "@DECL@ = " + e, ("ok", acc) if ok else "reject",
+                             fn=fn, call="%s(%s)" % (nm, ", ".join(vals)), rkind=kind))
+            # the same operators on UNTYPED float constants: exact rational arithmetic, rounded once at the declaration
+            acc, ok = Fraction(vals[0]), True
+            e = flit(vals[0])
+            for i, op in enumerate(ops):
+                acc = fexact_op(op, acc, Fraction(vals[i + 1]))
+                if acc is None:
+                    ok = False
+                    break
+                e = "(%s %s %s)" % (e, FOPS[op], flit(vals[i + 1]))
+            if ok:
+                acc = fround(acc, kind)
+            if rng.random() < 0.5:
+                out.append(FDecl("fchainu%d" % len(ops), kind, "@DECL@ %s = %s" % (kind, e), ("ok", acc) if ok and acc is not None else "reject"))
+        # conversions K2(K1(v)) of values that are not exact in the narrower type
+        other = "float64" if kind == "float32" else "float32"
+        for v in lits + ["-" + l for l in lits[:: 3]]:
+            x = fround(Fraction(v), kind)
+            # float -> other float
+            y = None if x is None else fround(x, other)
+            out.append(FDecl("fconv", "%s_%s" % (kind, other), "@DECL@ = %s(%s(%s))" % (other, kind, v), ("ok", y) if y is not None else "reject",
+                             fn="func fcv_%s_%s(x %s) %s { return %s(x) }" % (kind, other, kind, other, other), call="fcv_%s_%s(%s)" % (kind, other, v), rkind=other))
+            # float -> integer: only integral values in range are constants
+            for ik in rng.sample(FINTS, 2):
+                okc = x is not None and x.denominator == 1 and rep(ik, int(x))
+                out.append(FDecl("fconv", "%s_%s" % (kind, ik), "@DECL@ = %s(%s(%s))" % (ik, kind, v), ("ok", Fraction(int(x))) if okc else "reject",
+                                 fn="func fcv_%s_%s(x %s) %s { return %s(x) }" % (kind, ik, kind, ik, ik), call="fcv_%s_%s(%s)" % (kind, ik, v), rkind=ik))
+        # integer -> float: rounding of integers that are not exact in the float type
+        for ik in FINTS:
+            lo, hi = krange(ik)
+            for v in sorted(set([hi, hi - 1, lo, 16777217, 16777219, 33554435, 9007199254740993, 9007199254740995, 4294967295, 2147483647, 255, 0, 1,
+                                 (1 << 63) + 1025, (1 << 63) - 513] + [rng.randint(lo, hi) for _ in range(4 if quick else 40)])):
+                okc = rep(ik, v)
+                y = fround(Fraction(v), kind) if okc else None
+                out.append(FDecl("fconv", "%s_%s" % (ik, kind), "@DECL@ = %s(%s(%d))" % (kind, ik, v), ("ok", y) if y is not None else "reject",
+                                 fn="func fcv_%s_%s(x %s) %s { return %s(x) }" % (ik, kind, ik, kind, kind), call="fcv_%s_%s(%d)" % (ik, kind, v), rkind=kind))
+    rng.shuffle(out)
+    return out
+
+
+def fparse_verdict(v):
+    """harness verdict -> ('ok', Fraction) | 'reject'"""
+    if not v.startswith("ok:"):
+        return "reject"
+    t = v[3:]
+    if t.startswith("f"):
+        t = t[1:]
+    try:
+        return ("ok", Fraction(t))
+    except (ValueError, ZeroDivisionError):
+        return ("ok?", t)
+
+
+def fbits_expr(e, rkind):
+    if rkind == "float32":
+        return "math.Float32bits(%s)" % e
+    if rkind == "float64":
+        return "math.Float64bits(%s)" % e
+    return e
+
+
+def fexpect_print(val, rkind):
+    if rkind in ("float32", "float64"):
+        return str(fbits(val, rkind))
+    return str(int(val))
+
+
+def build_float_program(cases):
+    fns, seen = [], set()
+    for d in cases:
+        if d.fn not in seen:
+            seen.add(d.fn)
+            fns.append(d.fn)
+    glob, body = [], []
+    for i, d in enumerate(cases):
+        ce = d.text.replace("@DECL@ = ", "")
+        glob.append("var g%d = %s" % (i, ce))
+        body.append("\tprintln(%s, %s, %s)" % (fbits_expr(ce, d.rkind), fbits_expr(d.call, d.rkind), fbits_expr("g%d" % i, d.rkind)))
+    return "package main\n\nimport \"math\"\n\nvar _ = math.Pi\n\n" + "\n".join(fns) + "\n\n" + "\n".join(glob) + "\n\nfunc main() {\n" + "\n".join(body) + "\n}\n"
+
+
 # ------------------------------------------------------------------ the check
 def replay(ctx, h, warun):
     """re-run one recorded failing input on the real code and report whether it still fails"""
@@ -947,6 +1147,125 @@ def run(ctx):
     for o, a, b in fdiff[:5]:
         ctx.notes.append("float/complex exploration: %s -> wa %s, go/constant %s" % (o, a, b))
 
+    lap("stageD")
+    # ---- stage E: typed FLOAT constant expressions: checker value vs exact-rational oracle (rounded to the type after every
+    #      typed step) vs go/types, and folded constant vs the same operators on parameters vs global vs `go run` (bit patterns)
+    fdecls = gen_float_decls(ctx)
+    fsrc = "package main\n\n" + "\n".join(d.text.replace("@DECL@", "const c%d" % i) for i, d in enumerate(fdecls)) + "\n\nfunc main() {}\n"
+    fdir = os.path.join(ctx.tmp, "fdecl")
+    os.makedirs(fdir, exist_ok=True)
+    fpw, fpg = os.path.join(fdir, "main.wa.go"), os.path.join(fdir, "main.go")
+    for pth in (fpw, fpg):
+        with open(pth, "w") as f:
+            f.write(fsrc)
+    fo = hrun(["w chk %s %d" % (fpw, WORD), "g chk %s %d" % (fpg, WORD)])
+    fwv, fgv = fo[0].split(), fo[1].split()
+    if len(fwv) != len(fdecls) or fo[0].startswith("parse-error"):
+        ctx.violation("float:generated-file-not-processed", "type-checking the generated float declaration file did not yield one verdict per declaration: %s" % fo[0][:300],
+                      {"file": fsrc, "impl": fo[0][:2000]})
+        fwv = ["missing"] * len(fdecls)
+    if len(fgv) != len(fdecls):
+        raise vlib.InfraError("go/types reference failed on generated float file: %s" % fo[1][:500])
+    dist["stageE_float_decls"] = len(fdecls)
+    frun = []
+    fgo_diff = 0
+    for i, d in enumerate(fdecls):
+        evaluations += 1
+        got, gog = fparse_verdict(fwv[i]), fparse_verdict(fgv[i])
+        dist["E:" + d.shape] = dist.get("E:" + d.shape, 0) + 1
+        dist["E:accepted" if got != "reject" else "E:rejected"] = dist.get("E:accepted" if got != "reject" else "E:rejected", 0) + 1
+        nontrivial.add(("float", d.key, d.text.split("=", 1)[1].strip()[:60]))
+        decl = d.text.replace("@DECL@", "const c0")
+        if got != d.expect:
+            if got == "reject":
+                key = "float:%s:rejects-representable" % d.key
+            elif d.expect == "reject":
+                key = "float:%s:accepts-unrepresentable" % d.key
+            else:
+                key = "float:%s:wrong-folded-value" % d.key
+            ctx.violation(key, "declaration `%s`: checker gives %s; exact rational arithmetic rounded to the type after every typed step gives %s (go/types: %s)" % (
+                decl, fwv[i], d.expect if d.expect == "reject" else "ok:%s" % d.expect[1], fgv[i]),
+                {"decl": decl, "impl": fwv[i], "exact": "reject" if d.expect == "reject" else "ok:%s" % d.expect[1], "go/types": fgv[i]})
+        elif got != "reject" and d.fn is not None:
+            # float -> unsigned conversions of values >= half the unsigned range trap in the compiled program
+            # (signed trunc instruction): probed separately below, a trap would take the whole program down
+            k1, _, k2 = d.kind.partition("_")
+            if d.shape == "fconv" and k1 in FFMT and k2 in ("uint32", "uint64") and d.expect[1] >= (1 << (kbits(k2) - 1)):
+                dist["E:float_to_unsigned_ge_half_range_excluded"] = dist.get("E:float_to_unsigned_ge_half_range_excluded", 0) + 1
+            else:
+                frun.append(d)
+        if gog != got:
+            fgo_diff += 1
+            if fgo_diff <= 3:
+                ctx.notes.append("go/types disagrees with Wa's checker on float declaration `%s`: go=%s wa=%s" % (decl, fgv[i], fwv[i]))
+    dist["E:go_types_disagreements"] = fgo_diff
+    samples += [{"decl": d.text.replace("@DECL@", "const c0"), "impl": fwv[i], "go/types": fgv[i]} for i, d in list(enumerate(fdecls))[:: max(1, len(fdecls) // 4)]][:4]
+    ctx.rng.shuffle(frun)
+    frun = frun[: (360 if ctx.tier == "quick" else 3000)]
+    nfp = 3 if ctx.tier == "quick" else 12
+    fprogs = [(frun[i::nfp], build_float_program(frun[i::nfp]), "f%d" % i) for i in range(nfp) if frun[i::nfp]]
+
+    def exec_fprog(a):
+        ch, src, tag = a
+        return run_wa(ctx, warun, src, "frun_" + tag), run_go(ctx, src, "fgorun_" + tag)
+    with cf.ThreadPoolExecutor(6) as ex:
+        fres = list(ex.map(exec_fprog, fprogs))
+    dist["stageE_fold_vs_runtime_cases"] = 0
+    for (ch, src, tag), ((wst, wlines, werr), (gst, glines)) in zip(fprogs, fres):
+        if gst != "ok" or len(glines) != len(ch):
+            raise vlib.InfraError("go run of float fold-vs-runtime program %s failed: %s" % (tag, "\n".join(glines)[-1500:]))
+        if wst != "ok" or len(wlines) != len(ch):
+            ctx.violation("float-fold-vs-runtime:wa-run-failed", "float fold-vs-runtime program fails under Wa (%s) %s" % (wst, werr[-300:]),
+                          {"program": src, "wa_status": wst, "wa_tail": wlines[-3:], "stderr": werr})
+            continue
+        for d, wl_, gl_ in zip(ch, wlines, glines):
+            evaluations += 1
+            dist["stageE_fold_vs_runtime_cases"] += 1
+            ce = d.text.replace("@DECL@ = ", "")
+            want = fexpect_print(d.expect[1], d.rkind)
+            wf, gf = wl_.split(), gl_.split()
+            prog1 = "package main\n\nimport \"math\"\n\nvar _ = math.Pi\n\n%s\n\nfunc main() {\n\tprintln(%s, %s)\n}\n" % (d.fn, fbits_expr(ce, d.rkind), fbits_expr(d.call, d.rkind))
+            if len(wf) != 3:
+                ctx.violation("float-fold-vs-runtime:bad-output", "case `%s` printed %r" % (ce, wl_), {"expr": ce, "wa": wl_})
+                continue
+            # a constant has no negative zero: compare the run-time value modulo the sign of zero
+            negz = {"float32": str(1 << 31), "float64": str(1 << 63)}.get(d.rkind)
+            norm = lambda t: "0" if (negz is not None and t == negz) else t
+            if wf[0] != want:
+                ctx.violation("float-fold:%s:wrong-value" % d.key, "`%s` folds to bits %s under Wa; exact value rounded per step has bits %s (go run: %s)" % (ce, wf[0], want, gf[:1]),
+                              {"expr": ce, "wa_folded": wf[0], "exact": want, "go": gl_, "program": prog1, "expected": want + " " + want})
+            if norm(wf[1]) != norm(wf[0]):
+                ctx.violation("float-fold-vs-runtime:%s" % d.key, "`%s` folds to bits %s but %s computes bits %s at run time (exact: %s; go run: %s)" % (ce, wf[0], d.call, wf[1], want, gl_),
+                              {"expr": ce, "call": d.call, "fn": d.fn, "wa_folded": wf[0], "wa_runtime": wf[1], "exact": want, "go": gl_, "program": prog1, "expected": want + " " + want})
+            if wf[2] != wf[0]:
+                ctx.violation("float-global-init:%s" % d.key, "package-level `var g = %s` holds bits %s; the folded constant has bits %s" % (ce, wf[2], wf[0]),
+                              {"expr": ce, "wa_global": wf[2], "wa_folded": wf[0], "exact": want})
+            if wf != gf:
+                if wf[1] != gf[1] and wf[0] == gf[0]:
+                    ctx.violation("float-runtime-vs-go:%s" % d.key, "`%s`: Wa computes bits %s at run time, `go run` of the same text %s" % (d.call, wf[1], gf[1]),
+                                  {"call": d.call, "fn": d.fn, "wa": wl_, "go": gl_})
+                elif gf[0] != want:
+                    ctx.notes.append("go run disagrees with the rational oracle on `%s`: %s (oracle %s)" % (ce, gl_, want))
+    # probe: float -> unsigned integer conversion of an in-range value >= 2^(N-1)
+    fprobe = [("float64", "uint64", "9223372036854775808"), ("float32", "uint32", "3000000000"), ("float64", "uint32", "4294967295"), ("float32", "uint64", "18446742974197923840")]
+
+    def exec_probe(a):
+        k1, k2, v = a
+        src = "package main\n\nfunc cv(x %s) %s { return %s(x) }\n\nfunc main() {\n\tprintln(%s(%s(%s)), cv(%s))\n}\n" % (k1, k2, k2, k2, k1, v, v)
+        return src, run_wa(ctx, warun, src, "fprobe_%s_%s" % (k1, k2))
+    with cf.ThreadPoolExecutor(4) as ex:
+        pres = list(ex.map(exec_probe, fprobe))
+    for (k1, k2, v), (src, (wst, wl_, werr)) in zip(fprobe, pres):
+        evaluations += 1
+        want = str(int(fround(Fraction(v), k1)))
+        got = wl_[0].split() if wl_ else []
+        if wst != "ok" or got != [want, want]:
+            ctx.violation("float-fold-vs-runtime:float-to-unsigned-ge-half-range",
+                          "`%s(%s(%s))` folds to %s but the same conversion of a variable %s under Wa (EmitGenConvert uses the signed i32/i64.trunc_f* for unsigned targets)" % (
+                              k2, k1, v, want, ("prints %s" % got) if wst == "ok" else "traps: %s" % " ".join(wl_[-3:] + [werr[-120:]])[:200]),
+                          {"program": src, "wa_status": wst, "wa": wl_[:3], "expected": want + " " + want})
+    lap("stageE")
+
     cov = {
         "evaluations": evaluations,
         "distinct_nontrivial": len(nontrivial),
@@ -956,7 +1275,11 @@ def run(ctx):
                 "comparison, rational quotient) at every integer kind through the real parser + types.Config.Check, a sample through api.LoadProgramFile, compared with the "
                 "oracle (accepted iff every typed intermediate is representable; folded value exact), the Lean checker model, go/types and go vet; stage C: accepted typed "
                 "expressions compiled by the real compiler: folded constant vs the same operator on function parameters vs a package-level initialiser vs exact value vs "
-                "Base/GoInt semantics in Lean vs `go run`; stage D: float/complex ops vs go/constant (exploration). distinct_nontrivial counts distinct "
+                "Base/GoInt semantics in Lean vs `go run`; stage D: float/complex ops of the constant package vs go/constant (exploration); stage E: typed float32/float64 constant expressions "
+                "(chains of 2-3 operations where rounding after every typed step matters: ties at 2^24 / 2^53, 0.1+0.2, MaxFloat32 +- half ulp, overflow to Inf, "
+                "subnormals, divisors that round to 0; untyped chains rounded once; f32<->f64, float->int, int->float conversions of inexact values): the checker's "
+                "value vs an exact-rational oracle vs go/types, and the folded constant vs the same operators on parameters vs a global vs `go run`, floats printed as "
+                "bit patterns only. distinct_nontrivial counts distinct "
                 "(operation/shape, operator, kind, sign/zero/bit-length class of each operand, accepted?) tuples of stages A and B",
         "samples": samples,
         "distribution": dist,
